@@ -82,17 +82,51 @@ theorem recScalar_types (n : Node) (T : Ty) (tag : String) (ts : List Ty) (ls : 
     · exact (recFail_types _ _ t ls ts h ht).elim
   · exact (recFail_types _ _ t ls ts h ht).elim
 
+/-- what a remembered ambiguity may contain -/
+def AmbOk (Q : Ty → Prop) (amb : Option RecOut) : Prop := ∀ r, amb = some r → ∀ t ∈ r.1, Q t
+
+theorem ambOk_none (Q : Ty → Prop) : AmbOk Q none := by
+  intro r h; cases h
+
+theorem recDone_types (T : Ty) (Q : Ty → Prop) (hT : Q T) (amb : Option RecOut) (ha : AmbOk Q amb)
+    (ts : List Ty) (ls : List Leaf) (h : recDone T amb = .ok (ts, ls)) : ∀ t ∈ ts, Q t := by
+  intro t ht
+  unfold recDone at h
+  split at h
+  · rename_i r
+    simp only [Except.ok.injEq] at h
+    have := ha r rfl t
+    rw [h] at this
+    exact this ht
+  · rw [recOk_types T t ls ts h ht]; exact hT
+
+theorem noteAmb_ok (Q : Ty → Prop) (amb : Option RecOut) (ha : AmbOk Q amb) (ts : List Ty) (wrap : Ty → Ty)
+    (leaves : List Leaf) (hw : ∀ u ∈ ts, Q (wrap u)) : AmbOk Q (noteAmb amb ts wrap leaves) := by
+  unfold noteAmb
+  split
+  · exact ha
+  · split
+    · intro r hr t ht
+      simp only [Option.some.injEq] at hr
+      subst hr
+      obtain ⟨u, hu, rfl⟩ := List.mem_map.mp ht
+      exact hw u hu
+    · exact ambOk_none Q
+
 theorem recListItems_types (rec : Node → Ty → RecRes) (T itemTy : Ty) (P : Ty → Prop)
     (hrec : ∀ x ts ls, rec x itemTy = .ok (ts, ls) → ∀ t ∈ ts, P t) :
-    ∀ (items : List Node) (ts : List Ty) (ls : List Leaf), recListItems rec T itemTy items = .ok (ts, ls) →
+    ∀ (items : List Node) (amb : Option RecOut) (ts : List Ty) (ls : List Leaf),
+      AmbOk (fun t => t = T ∨ ∃ u, P u ∧ t = .seq .list u) amb →
+      recListItems rec T itemTy amb items = .ok (ts, ls) →
       ∀ t ∈ ts, t = T ∨ ∃ u, P u ∧ t = .seq .list u := by
   intro items
   induction items with
   | nil =>
-    intro ts ls h t ht
-    exact Or.inl (recOk_types T t ls ts h ht)
+    intro amb ts ls ha h
+    simp only [recListItems] at h
+    exact recDone_types T _ (Or.inl rfl) amb ha ts ls h
   | cons x xs ih =>
-    intro ts ls h t ht
+    intro amb ts ls ha h t ht
     unfold recListItems at h
     split at h
     · cases h
@@ -100,26 +134,25 @@ theorem recListItems_types (rec : Node → Ty → RecRes) (T itemTy : Ty) (P : T
       split at h
       · simp only [Except.ok.injEq, Prod.mk.injEq] at h
         rw [← h.1] at ht; cases ht
-      · split at h
-        · simp only [Except.ok.injEq, Prod.mk.injEq] at h
-          rw [← h.1] at ht
-          obtain ⟨u, hu, rfl⟩ := List.mem_map.mp ht
-          exact Or.inr ⟨u, hrec x ts' ls' hx u hu, rfl⟩
-        · exact ih ts ls h t ht
+      · refine ih _ ts ls (noteAmb_ok _ amb ha ts' _ ls' ?_) h t ht
+        intro u hu
+        exact Or.inr ⟨u, hrec x ts' ls' hx u hu, rfl⟩
 
 theorem recDictPairs_types (rec : Node → Ty → RecRes) (T keyTy valTy : Ty) (PK PV : Ty → Prop)
     (hk : ∀ x ts ls, rec x keyTy = .ok (ts, ls) → ∀ t ∈ ts, PK t)
     (hv : ∀ x ts ls, rec x valTy = .ok (ts, ls) → ∀ t ∈ ts, PV t) :
-    ∀ (ps : List (Node × Node)) (ts : List Ty) (ls : List Leaf),
-      recDictPairs rec T keyTy valTy ps = .ok (ts, ls) →
+    ∀ (ps : List (Node × Node)) (amb : Option RecOut) (ts : List Ty) (ls : List Leaf),
+      AmbOk (fun t => t = T ∨ (∃ u, PK u ∧ t = .map .dict u valTy) ∨ (∃ u, PV u ∧ t = .map .dict keyTy u)) amb →
+      recDictPairs rec T keyTy valTy amb ps = .ok (ts, ls) →
       ∀ t ∈ ts, t = T ∨ (∃ u, PK u ∧ t = .map .dict u valTy) ∨ (∃ u, PV u ∧ t = .map .dict keyTy u) := by
   intro ps
   induction ps with
   | nil =>
-    intro ts ls h t ht
-    exact Or.inl (recOk_types T t ls ts h ht)
+    intro amb ts ls ha h
+    simp only [recDictPairs] at h
+    exact recDone_types T _ (Or.inl rfl) amb ha ts ls h
   | cons p ps ih =>
-    intro ts ls h t ht
+    intro amb ts ls ha h t ht
     obtain ⟨k, v⟩ := p
     unfold recDictPairs at h
     split at h
@@ -129,22 +162,16 @@ theorem recDictPairs_types (rec : Node → Ty → RecRes) (T keyTy valTy : Ty) (
       · simp only [Except.ok.injEq, Prod.mk.injEq] at h
         rw [← h.1] at ht; cases ht
       · split at h
-        · simp only [Except.ok.injEq, Prod.mk.injEq] at h
-          rw [← h.1] at ht
-          obtain ⟨u, hu, rfl⟩ := List.mem_map.mp ht
-          exact Or.inr (Or.inl ⟨u, hk k kts kl hkk u hu, rfl⟩)
-        · split at h
-          · cases h
-          · rename_i vts vl hvv
-            split at h
-            · simp only [Except.ok.injEq, Prod.mk.injEq] at h
-              rw [← h.1] at ht; cases ht
-            · split at h
-              · simp only [Except.ok.injEq, Prod.mk.injEq] at h
-                rw [← h.1] at ht
-                obtain ⟨u, hu, rfl⟩ := List.mem_map.mp ht
-                exact Or.inr (Or.inr ⟨u, hv v vts vl hvv u hu, rfl⟩)
-              · exact ih ts ls h t ht
+        · cases h
+        · rename_i vts vl hvv
+          split at h
+          · simp only [Except.ok.injEq, Prod.mk.injEq] at h
+            rw [← h.1] at ht; cases ht
+          · refine ih _ ts ls (noteAmb_ok _ _ (noteAmb_ok _ amb ha kts _ kl ?_) vts _ vl ?_) h t ht
+            · intro u hu
+              exact Or.inr (Or.inl ⟨u, hk k kts kl hkk u hu, rfl⟩)
+            · intro u hu
+              exact Or.inr (Or.inr ⟨u, hv v vts vl hvv u hu, rfl⟩)
 
 theorem recUnionMembers_types (rec : Node → Ty → RecRes) (n : Node) (P : Ty → Prop) :
     ∀ (ms : List Ty) (acc acc' : UnionAcc),
@@ -309,7 +336,7 @@ theorem recognizeReq_ok (env : Env) : ∀ (fuel : Nat) (n : Node) (q : Req), Res
           unfold recList at h
           split at h
           · have := recListItems_types _ (.seq k item) item (Admits env item)
-              (fun x ts' ls' h' => ihT x item ts' ls' h') _ ts ls h t ht
+              (fun x ts' ls' h' => ihT x item ts' ls' h') _ none ts ls (ambOk_none _) h t ht
             rcases this with rfl | ⟨u, hu, rfl⟩
             · exact Admits.self _ (by intro c; simp) (by intro ms; simp)
             · exact Admits.seqItem hu
@@ -327,7 +354,7 @@ theorem recognizeReq_ok (env : Env) : ∀ (fuel : Nat) (n : Node) (q : Req), Res
           · split at h
             · have := recDictPairs_types _ (.map k a b) a b (Admits env a) (Admits env b)
                 (fun x ts' ls' h' => ihT x a ts' ls' h') (fun x ts' ls' h' => ihT x b ts' ls' h')
-                _ ts ls h t ht
+                _ none ts ls (ambOk_none _) h t ht
               rcases this with rfl | ⟨u, hu, rfl⟩ | ⟨u, hu, rfl⟩
               · exact Admits.self _ (by intro c; simp) (by intro ms; simp)
               · exact Admits.mapKey hu
